@@ -251,4 +251,25 @@ def r87b(F):
     return r
 
 
-RULES = [r49, r49t, r50, r51, r52, r87b]
+def r50r(F):
+    from .. import callgraph
+    r = RuleResult("R50r", "the out lock is released only where a file's evaluation starts",
+                   "Environment::reset_out_lock_for_path is called from FileBuilder::build and from the import hook only: any caller that "
+                   "also runs for nested VMs of the same file (VM::run, function calls, module instantiation, callbacks, format scopes) "
+                   "would clear the lock between two `out` statements of one file", floor=2, exhaustive=True)
+    CG = callgraph.get(F)
+    target = [n for n in F.fns if n.endswith("Environment::reset_out_lock_for_path")]
+    need(len(target) == 1, "Environment::reset_out_lock_for_path not found")
+    allowed = {"ucglib::build::FileBuilder::build", "ucglib::build::opcode::runtime::Builtins::import"}
+    callers = CG.callers(target[0])
+    need(callers, "reset_out_lock_for_path is never called")
+    for c in callers:
+        ok = c in allowed
+        r.inst("caller:%s" % "::".join(c.split("::")[-2:]), F.fn(c).where() if c in F.fns else c, ok,
+               "start of a file's evaluation" if ok else
+               "%s releases the one-output-per-file lock: it also runs for nested evaluations of the same file, so a second `out` after a "
+               "function call or module instantiation is accepted and overwrites the artifact" % c.split("::")[-1])
+    return r
+
+
+RULES = [r49, r49t, r50, r50r, r51, r52, r87b]
